@@ -5,6 +5,9 @@ package influxql
 // Contracts for the deductive checks under /verif (tool: govc).
 // This file contains comments only. Syntax: see /verif/govc/contract.go.
 
+// Package-level variables that are assigned once by their initialisers.
+//@ globalinv ErrInvalidDuration != nil
+
 // ---------------------------------------------------------------- C03 tables
 
 //@ func (Token).Precedence
@@ -22,3 +25,16 @@ package influxql
 //@ lemma opsHavePrecedence [C03] forall t Token :: spec_isOp(t) ==> spec_prec(t) >= 1
 //@ lemma precOnlyForOps [C03] forall t Token :: spec_prec(t) >= 1 ==> spec_isOp(t)
 //@ lemma regexOpsAreComparisons [C03] forall t Token :: spec_isRegexOp(t) ==> spec_prec(t) == 3
+
+// ---------------------------------------------------------------- C08 durations
+
+//@ func ParseDuration
+//@   props C08
+//@   safety C08
+//@   tracks ovf
+//@   ensures result1 == nil ==> !ovf()
+//@   loop 1 invariant 0 <= i && i <= len(a) && d >= 0 && (!overflow ==> !ovf())
+//@   loop 1 step !overflow ==> ((spec_unitAt(a, old(i), i, i-1) && d - old(d) == n * spec_unitVal(a, i-1)) || (spec_unitAt(a, old(i), i, i-2) && d - old(d) == n * spec_unitVal(a, i-2)))
+//@   loop 1 decreases len(a) - i
+//@   loop 2 invariant start <= i && i <= len(a) && 0 <= start && (i > start ==> isDigit(a[start]) && isDigit(a[i-1])) && (!overflow ==> !ovf())
+//@   loop 2 decreases len(a) - i
